@@ -41,13 +41,13 @@ type Engine struct {
 	timeoutMs  int
 	params     map[string]int
 
-	mu        sync.Mutex
-	methCache map[string]*ssa.Function
-	errString types.Type
-	overlay   map[string][]byte
+	mu           sync.Mutex
+	methCache    map[string]*ssa.Function
+	errString    types.Type
+	overlay      map[string][]byte
 	overlayFiles map[string]string // virtual path -> real path (for replay)
-	wantWitness bool
-	lazyCache map[*ssa.Global][]ssa.Instruction
+	wantWitness  bool
+	lazyCache    map[*ssa.Global][]ssa.Instruction
 }
 
 // harness packages: directory under /verif/harness -> import path in the repo
